@@ -202,23 +202,26 @@ def case_axis(ctx, shape):
         ctx.encoded(f)
         for axis in list(range(-len(shape), len(shape))) + [None]:
             with npx.symbolic(ac):
-                full = f(cn2, h, lam, axis=axis) if axis is not None else f(cn2, h, lam)
+                full = f(cn2.copy(), h.copy(), lam, axis=axis) if axis is not None else f(cn2.copy(), h.copy(), lam)
                 ax = -1 if axis is None else axis
                 moved_c = numpy.moveaxis(cn2, ax, -1)
                 moved_h = numpy.moveaxis(h, ax, -1)
                 loop = numpy.empty(moved_c.shape[:-1], dtype=object)
                 for idx in numpy.ndindex(*moved_c.shape[:-1]):
-                    loop[idx] = f(moved_c[idx], moved_h[idx], lam)
+                    loop[idx] = f(moved_c[idx].copy(), moved_h[idx].copy(), lam)
             if numpy.shape(full) != loop.shape:
                 goal = z3.BoolVal(False)
             else:
                 goal = all_eq(full, loop)
             if axis in (0, None):
                 with npx.symbolic(ac):
-                    again = f(cn2, h, lam, axis=axis) if axis is not None else f(cn2, h, lam)
+                    c2, h2 = cn2.copy(), h.copy()          # one pair of arrays used for two successive calls
+                    first = f(c2, h2, lam, axis=axis) if axis is not None else f(c2, h2, lam)
+                    again = f(c2, h2, lam, axis=axis) if axis is not None else f(c2, h2, lam)
                 ctx.prove("%s axis=%s: a second call with the same arrays returns the same numbers" % (fn, axis), pre,
-                          all_eq(again, full) if numpy.shape(again) == numpy.shape(full) else z3.BoolVal(False), timeout_ms=60000,
-                          replay=lambda m, fn=fn, axis=axis: _replay_again(fn, m(cn2), m(h), m(lam), axis), witness_terms=dict(lam=lam))
+                          all_eq(again, first) if numpy.shape(again) == numpy.shape(first) else z3.BoolVal(False), timeout_ms=10000,
+                          replay=lambda m, fn=fn, axis=axis: _replay_again(fn, _mm(m, cn2), _mm(m, h), _ms(m, lam), axis), witness_terms=dict(lam=lam),
+                          replay_on_unknown=True)
             ctx.prove("%s axis=%s equals the loop over profiles" % (fn, axis), pre, goal, timeout_ms=60000,
                       replay=lambda m, fn=fn, axis=axis: _replay_axis(fn, m(cn2), m(h), m(lam), axis),
                       witness_terms=dict(lam=lam))
@@ -239,6 +242,20 @@ def _replay_axis(fn, cn2, h, lam, axis):
     bad = numpy.shape(full) != loop.shape or _rel(full, loop) > 1e-9
     return bad, dict(what="%s(axis=%s) differs from looping over profiles" % (fn, axis), cn2=cn2, h=h, lam=lam,
                      got=numpy.asarray(full), want=loop)
+
+
+def _mm(m, arr):
+    try:
+        return m(arr)
+    except Exception:
+        return rand_real(rng_for("c17again"), numpy.shape(arr), 1, 9, 4.0)
+
+
+def _ms(m, s):
+    try:
+        return m(s)
+    except Exception:
+        return 5e-7
 
 
 def _replay_again(fn, cn2, h, lam, axis):
